@@ -3,7 +3,7 @@ SPEC = dict(
     level="proof",
     observers=[dict(cmd="obs_cluster", imports=["Model.Cluster"], case_type="Cluster.case", check="Cluster.check_case",
                     args=["-prop", "C19", "-kinds", "endpoint,slots,shards,table,table,do,do,do,multi"],
-                    n={"quick": 900, "thorough": 20000}, shard=100)],
+                    n={"quick": 700, "thorough": 20000}, shard=100)],
     rule="generated topologies (1-4 shards, replicas, endpoints \"\" / \"?\" / IPv6 / host names, health, tls-port; overlapping, "
          "negative, reversed and oversized ranges; duplicate primaries) as CLUSTER SLOTS and CLUSTER SHARDS replies, 40% with 1-3 "
          "tree mutations (dropped / duplicated / retyped sub-trees) through the exported parsers; the same replies served by a fake node "
